@@ -4,7 +4,7 @@
     length e/2).  [ugrafts tip t] lists the results for every branch of [t] in Edges() order,
     exactly as [TreeGen.grafts] does for AllTopologies (there with NIL lengths).  No proofs. *)
 From Coq Require Import String ZArith QArith Bool Arith List.
-From GT Require Import Base.UTree Model.Reroot Model.TreeGen Model.Heap.
+From GT Require Import Base.UTree Model.Reroot Model.Prune Model.Collapse Model.TreeGen Model.NNI Model.Heap Model.HeapEdit.
 Import ListNotations.
 Local Close Scope Q_scope.
 
@@ -41,3 +41,96 @@ Fixpoint ugrafts (tip : utree) (t : utree) : list utree :=
 (** graft a new tip named [name] on the k-th branch (Edges() order) *)
 Definition ugraft (name : string) (k : nat) (t : utree) : option utree :=
   nth_error (ugrafts (UNode name [] [None]) t) k.
+
+(** * a history alphabet at heap level: the operations whose refinement square is proved
+    (Proofs/HeapHistory.v).  [HReroot] and [HUnroot] are History.OReroot / History.OUnroot;
+    the branch-indexed operations address the k-th branch of Tree.Edges() (= the k-th edge id
+    of the dump). *)
+Inductive hop : Type :=
+| HReroot (i : nat)                         (* Tree.Reroot(Nodes()[i]) *)
+| HRerootNocheck (i : nat)                  (* reroot_nocheck(Nodes()[i]) *)
+| HUnroot                                   (* Tree.UnRoot() *)
+| HGraftTip (name : string) (k : nat)       (* GraftTipOnEdge(new tip "name", Edges()[k]) *)
+| HRemoveEdge (rr rt : bool) (k : nat)      (* RemoveEdges(rr, rt, Edges()[k]) *)
+| HNniApply (r : nni).                      (* newNNI(t, n1, n2, cross).Apply() for the positional proposal r *)
+
+Local Open Scope string_scope.
+Definition err_no_node : string := "The node is not part of the tree".
+Definition err_no_branch : string := "model: no such branch".
+
+Definition err_nni_heap : string := "model: the rearrangement is not applicable".
+
+(** follow slot indexes from a node; the parent slot is not a way down *)
+Fixpoint walk (h : heap) (prev : option nat) (cur : nat) (p : list nat) : hres nat :=
+  match p with
+  | [] => HOk cur
+  | k :: q =>
+    do hn <- get_node h cur;
+    match nth_error (hneigh hn) k with
+    | Some m => if opt_nat_eqb (Some m) prev then HErr err_nni_heap else walk h (Some cur) m q
+    | None => HErr err_nni_heap
+    end
+  end.
+
+(** the proposal [r] (path to n1, r_k = n1.NodeIndex(n2), r_j = n2.NodeIndex(n1), cross) made
+    concrete on the heap, with the guard of NNIRearranger.Rearrange (both ends have 3
+    neighbours, n1 = e.Left()), then Apply *)
+Definition nni_apply_at (r : nni) (h : heap) : hres heap :=
+  do n1 <- walk h None (hroot h) (r_path r);
+  do hn1 <- get_node h n1;
+  match nth_error (hneigh hn1) (r_k r), nth_error (hbr hn1) (r_k r) with
+  | Some n2, Some ec =>
+    do hn2 <- get_node h n2;
+    do edc <- get_edge h ec;
+    if Nat.eqb (length (hneigh hn1)) 3 && Nat.eqb (length (hneigh hn2)) 3 && Nat.eqb (hleft edc) n1 &&
+       opt_nat_eqb (nth_error (hneigh hn2) (r_j r)) (Some n1)
+    then do q <- new_nni_heap h n1 n2 (r_cross r); nni_apply_heap q h
+    else HErr err_nni_heap
+  | _, _ => HErr err_nni_heap
+  end.
+
+Definition run_hop_tree (o : hop) (t : utree) : res utree :=
+  match o with
+  | HReroot i => reroot t i
+  | HRerootNocheck i => reroot t i
+  | HUnroot => Ok (unroot t)
+  | HGraftTip name k => match ugraft name k t with Some t' => Ok t' | None => Err err_no_branch end
+  | HRemoveEdge rr rt k =>
+    if Nat.ltb k (length (edges t)) then Ok (Collapse.remove_edges_idx rr rt [k] t) else Err err_no_branch
+  | HNniApply r => match NNI.apply r t with Some t' => Ok t' | None => Err err_nni_heap end
+  end.
+
+Fixpoint run_tree (ops : list hop) (t : utree) : res utree :=
+  match ops with
+  | [] => Ok t
+  | o :: r => match run_hop_tree o t with Ok t' => run_tree r t' | Err m => Err m end
+  end.
+
+Definition kth_edge (h : heap) (k : nat) : hres nat :=
+  match dump h with
+  | Some lt => match nth_error (leids lt) k with Some e => HOk e | None => HErr err_no_branch end
+  | None => HPanic
+  end.
+
+Definition run_hop_heap (o : hop) (h : heap) : hres heap :=
+  match o with
+  | HReroot i =>
+    do ns <- tree_nodes h;
+    match nth_error ns i with Some n => reroot_heap n h | None => HErr err_no_node end
+  | HRerootNocheck i =>
+    do ns <- tree_nodes h;
+    match nth_error ns i with Some n => reroot_nocheck_heap n h | None => HErr err_no_node end
+  | HUnroot => unroot_heap h
+  | HGraftTip name k =>
+    do e <- kth_edge h k;
+    do r <- graft_new_tip name e h;
+    HOk (snd r)
+  | HRemoveEdge rr rt k => do e <- kth_edge h k; remove_edge rr rt e h
+  | HNniApply r => nni_apply_at r h
+  end.
+
+Fixpoint run_heap (ops : list hop) (h : heap) : hres heap :=
+  match ops with
+  | [] => HOk h
+  | o :: r => do h1 <- run_hop_heap o h; run_heap r h1
+  end.
